@@ -40,7 +40,10 @@ SPEC = {
         "vtkio's legacy reader (the geometry reaches the kernel through a file)",
     ],
     "assumptions": [
-        "general position (generator filter) as for C16; clip modes left/right (the quantifier's `clip modes that keep a "
+        "the main streams use C16's generator filter (general position) although C17's statement has no such clause; the stream "
+        "`edges through grid corners` drops `no edge through a grid corner` (in scope, full oracle); vertices on grid lines are not "
+        "generated: capture_geometry shifts its origin until no vertex lies on a grid line (keep_all_poi), which reduces them to other "
+        "grids; clip modes left/right (the quantifier's `clip modes that keep a "
         "bounded region`); Clip::None is run with the reduced oracle (every cell anchored, points of interest are nodes)",
         "maps of the correspondence stream are well-formed 2-maps (grids, grids with holes, loaded polygon soups)",
         "the surface theorems of Props/C17Surf.lean assume a map without edge and face anchors before the call (what "
@@ -50,9 +53,8 @@ SPEC = {
     ],
     "rule": "quick: ~70 geometries (same families as C16) x clip {left, right, none} x points of interest {all, some, none}; "
             "+ loops inside one cell; + 25 polygons with an edge through a grid corner (exact family) x up to 3 segment orders x 3 "
-            "clips, the real step-1 slots probed through the hook grisubal::verif::intersection_data (finding D17b = D16c: panic exactly "
-            "when a NaN slot precedes a written one; all clauses required otherwise); + classify correspondence on hand-made anchored "
-            "maps. thorough: x8.",
+            "clips, full oracle (the former finding D17b = D16c, fixed by /repo 2e893a8: every clause must hold, also when the corner "
+            "edge comes first); + classify correspondence on hand-made anchored maps. thorough: x8.",
     "not_proved": [
         "C17_classify_asserts_never_fire: that the three debug_assert!s of classify_capture cannot fail on capture outputs "
         "(C17_classify_ok_all_anchored is the statement WITH the assertions, as in the debug build the harness runs). It is "
@@ -231,29 +233,6 @@ def oracle(case, li):
     if not f:
         return None
     return "; ".join(f[:8]), classify_failure(g, clip, s, f)
-
-
-def corner_oracle(case, li):
-    """edges through grid corners: same clauses; a panic of capture_geometry is the listed finding only when the real
-    step-1 slots (hook, `gcrossd` probes) have a NaN slot before a filled one (c16.nan_before_filled)"""
-    if case.oracle != "c17corner":
-        return None
-    if any(ln.startswith("<missing") for ln in li):
-        return "driver-died: " + li[0]
-    at = case.meta["probe_at"]
-    shifted = c16.nan_before_filled(li[at:at + case.meta["nseg"]])
-    case.meta["facts"]["nan_slot_before_filled_slot"] = shifted
-    if shifted is None:
-        return "probe-failed: the step-1 hook refused a segment: " + "; ".join(li[at:])[:200]
-    if li[0] == "panic":
-        return "panic: capture_geometry panicked on a valid geometry (an edge passes through a grid corner)", \
-            ("nan-slot-shifts-intersection-ids" if shifted else None)
-    case.oracle = "c17"
-    try:
-        r = oracle(case, li)
-    finally:
-        case.oracle = "c17corner"
-    return (r[0], None) if isinstance(r, tuple) else r
 
 
 def classify_failure(g, clip, s, fails):
@@ -441,9 +420,9 @@ def run(tier, seed):
     cap = capture_cases(rng, 70 * mult)
     parts.append(("capture + classify on polygons in general position (implementation, oracle)", gg.impl_campaign(cap, oracle)))
     parts.append(("loops inside one grid cell", gg.impl_campaign(tiny_cases(rng, 6 * mult), oracle)))
-    parts.append(("edges through grid corners (exact family; step-1 slots probed through the hook)",
-                  gg.impl_campaign(c16.corner_cases(rng, 25 * mult, cmd="capture", oracle_name="c17corner", obs=("wf", "snap", "classify", "snap")),
-                                   corner_oracle)))
+    parts.append(("edges through grid corners (exact family, several segment orders; in scope: C17 has no general-position clause; "
+                  "panicked before /repo 2e893a8, finding D17b, fixed)",
+                  gg.impl_campaign(c16.corner_cases(rng, 25 * mult, cmd="capture", oracle_name="c17", obs=("wf", "snap", "classify", "snap")), oracle)))
     parts.append(("classify: hand-made anchored grids, model vs implementation", hv.campaign(grid_cases(rng, 150 * mult), None)))
     parts.append(("classify: all well-formed 2-maps with <= 3 darts (+ sampled 4-dart maps), model vs implementation",
                   hv.campaign(small_map_cases(rng, 4, 600 * mult), None)))
